@@ -179,6 +179,10 @@ func (n *DLQHandlerNode) Nack(msg *Message, nackMetadata NackMetadata) error {
 	writeTime := time.Now()
 	err = n.Handler.Write(msg.Ctx, dlqRecord)
 	if err != nil {
+		// A failed DLQ write is fatal: recovering would re-read and re-nack
+		// the same record and fail the same way, an endless loop of restarts
+		// (the funnel engine's DLQ.Nack makes the same decision).
+		err = cerrors.FatalError(cerrors.Errorf("failed to write record to the DLQ: %w", err))
 		return err
 	}
 	n.Timer.Update(time.Since(writeTime))
